@@ -227,6 +227,35 @@ def group_case(draw, disabled=()):
                 rel.append([b["id"], b["pos"] - a["pos"]])
         if rel:
             a["rel_cfg"] = rel
+    # guard pattern: a member's logic-sig validates a field of another member through the configured
+    # absolute index or offset (the situation in which the tool clears the other member)
+    if n >= 2 and draw(st.integers(0, 2)) > 0:
+        from vf.ir import I
+
+        ga = draw(st.sampled_from([t for t in txns if t.get("lsig")] or [None]))
+        if ga is not None:
+            gb = draw(st.sampled_from([t for t in txns if t is not ga]))
+            field = draw(st.sampled_from(["RekeyTo", "CloseRemainderTo", "AssetCloseTo", "Fee"]))
+            via_abs = draw(st.booleans())
+            const = ["int", 1000, "1000", "int"] if field == "Fee" else ["addr", "ZERO", "global"]
+            op = "<=" if field == "Fee" else "=="
+            if via_abs:
+                rd = ["read", {"kind": "gtxn", "field": field, "idx": gb["pos"]}]
+                head = [I("gtxn", gb["pos"], field)]
+                gb["abs_cfg"] = gb["pos"]
+            else:
+                off = gb["pos"] - ga["pos"]
+                rd = ["read", {"kind": "rel", "field": field, "off": abs(off), "sign": "+" if off > 0 else "-", "order": 0}]
+                head = [I("txn", "GroupIndex"), I("int", abs(off)), I("+" if off > 0 else "-"), I("gtxns", field)]
+                rel = [r for r in ga.get("rel_cfg", []) if r[0] != gb["id"]] + [[gb["id"], off]]
+                ga["rel_cfg"] = rel
+            cnd = ["cmp", op, rd, const]
+            tail = [I("int", 1000)] if field == "Fee" else [I("global", "ZeroAddress")]
+            ass = I("assert")
+            ass.append({"cond": cnd})
+            c = contracts[ga["lsig"]]
+            if c["version"] >= 3:
+                c["items"] = head + tail + [I(op), ass] + c["items"]
     return {"contracts": contracts, "txns": txns}
 
 
